@@ -167,6 +167,14 @@ pub fn run_step(e: &Envelope, s: &Step) -> String {
     }
 }
 
+/// The call a thread repeats after the closing barrier: its first formatting step, or `format` of an
+/// envelope if it has none. By then every registration of the program has completed, so the call runs
+/// in one known registry state.
+pub const EPILOGUE: usize = 1000;
+pub fn epilogue_step(prog: &Program, ti: usize) -> Step {
+    prog.threads[ti].iter().find(|s| s.op <= 4).cloned().unwrap_or(Step { op: 0, env: ti % prog.envs.len(), arg: 0, jitter_us: 0 })
+}
+
 fn busy_wait(us: u64) {
     let t = Instant::now();
     while t.elapsed() < Duration::from_micros(us) {
@@ -216,6 +224,11 @@ pub fn child_main(mode: &str, hex_program: &str) -> i32 {
                     // format context, so the S0 pass of the tag-name lookups comes first)
                     let _ = run_step(&envs[0], &Step { op: 12, env: 0, arg: 0, jitter_us: 0 });
                 }
+                if pass == 1 {
+                    for ti in 0..prog.threads.len() {
+                        emit(ti, EPILOGUE, &epilogue_step(&prog, ti));
+                    }
+                }
                 for (ti, steps) in prog.threads.iter().enumerate() {
                     for (si, s) in steps.iter().enumerate() {
                         if s.op == 6 || s.op == 12 {
@@ -244,6 +257,7 @@ pub fn child_main(mode: &str, hex_program: &str) -> i32 {
                 let steps = steps.clone();
                 let b = barrier.clone();
                 let eb = envs_bytes.clone();
+                let epi = epilogue_step(&prog, ti);
                 handles.push(std::thread::spawn(move || {
                     // each thread decodes its own copies (Envelope is not Send without the feature)
                     let envs: Vec<Envelope> = eb.iter().map(|x| Envelope::try_from_cbor_data(x.clone()).unwrap()).collect();
@@ -258,6 +272,16 @@ pub fn child_main(mode: &str, hex_program: &str) -> i32 {
                                 let msg = p.downcast_ref::<String>().cloned().or_else(|| p.downcast_ref::<&str>().map(|s| s.to_string())).unwrap_or_default();
                                 out.push(format!("P {} {} {}", ti, si, hex::encode(msg)));
                             }
+                        }
+                    }
+                    // closing barrier: every registration has completed; one more call in a known state
+                    b.wait();
+                    let r = std::panic::catch_unwind(std::panic::AssertUnwindSafe(|| run_step(&envs[epi.env], &epi)));
+                    match r {
+                        Ok(t) => out.push(format!("R {} {} {}", ti, EPILOGUE, hex::encode(t))),
+                        Err(p) => {
+                            let msg = p.downcast_ref::<String>().cloned().or_else(|| p.downcast_ref::<&str>().map(|s| s.to_string())).unwrap_or_default();
+                            out.push(format!("P {} {} {}", ti, EPILOGUE, hex::encode(msg)));
                         }
                     }
                     out
@@ -423,12 +447,14 @@ pub fn run(data: &[u8], ctx: &mut Ctx) -> Outcome {
         }
     }
     let got = parse_results(&race);
-    let total: usize = prog.threads.iter().map(|t| t.len()).sum();
+    let total: usize = prog.threads.iter().map(|t| t.len() + 1).sum();
     if got.len() != total {
         return fail(ctx, "completion", "C20/missing-results", format!("{} of {} operations reported a result", got.len(), total));
     }
     for ((t, s), results) in &got {
-        let step = &prog.threads[*t][*s];
+        let epilogue = *s == EPILOGUE;
+        let epi = epilogue_step(&prog, *t);
+        let step = if epilogue { &epi } else { &prog.threads[*t][*s] };
         let (tag, text) = &results[0];
         // "panics alone" = panics in both solo runs with a message of its own (a PoisonError is never a
         // call's own panic: a fresh process has no poisoned lock unless an earlier call left one behind)
@@ -450,8 +476,13 @@ pub fn run(data: &[u8], ctx: &mut Ctx) -> Outcome {
         let results_of = |r: &BTreeMap<(usize, usize), Vec<(char, String)>>| -> Vec<String> { r.get(&(*t, *s)).map(|v| v.iter().map(|x| x.1.clone()).collect()).unwrap_or_default() };
         // which registry states may this call legitimately find?
         let reg_states: &[bool] = if prog.pre_register { &[true] } else if has_register { &[false, true] } else { &[false] };
-        let own_custom_before = prog.threads[*t][..*s].iter().any(|x| x.op == 12);
-        let custom_states: &[bool] = if own_custom_before { &[true] } else if has_custom { &[false, true] } else { &[false] };
+        let own_custom_before = !epilogue && prog.threads[*t][..*s].iter().any(|x| x.op == 12);
+        let custom_states: &[bool] = if own_custom_before || (epilogue && has_custom) { &[true] } else if has_custom { &[false, true] } else { &[false] };
+        // after the closing barrier every register_tags() of the program has returned
+        let reg_states: &[bool] = if epilogue && has_register { &[true] } else { reg_states };
+        if epilogue {
+            ctx.class("epilogue-after-closing-barrier");
+        }
         let mut allowed: Vec<String> = Vec::new();
         for r in reg_states {
             for cu in custom_states {
@@ -467,7 +498,7 @@ pub fn run(data: &[u8], ctx: &mut Ctx) -> Outcome {
                 ctx,
                 "result",
                 &format!("C20/result-differs/{}", OPS[step.op]),
-                format!("{} on envelope #{} in thread {} returned {:?} under concurrency; alone it returns {:?} (tags registered) / {:?} (not registered); acceptable here: {:?}; program class {}{}", OPS[step.op], step.env, t, text, reg, unreg, allowed, class, if own_custom_before { ", after this thread's own custom tag registration" } else { "" }),
+                format!("{} on envelope #{} in thread {} returned {:?} under concurrency; alone it returns {:?} (tags registered) / {:?} (not registered); acceptable here: {:?}; program class {}{}{}", OPS[step.op], step.env, t, text, reg, unreg, allowed, class, if own_custom_before { ", after this thread's own custom tag registration" } else { "" }, if epilogue { ", call made after the closing barrier (every registration of the program had returned)" } else { "" }),
             );
         }
     }
